@@ -67,6 +67,13 @@ mod replay_state {
             v
         }
     }
+    pub fn next_len() -> usize {
+        unsafe {
+            #[allow(static_mut_refs)]
+            let vals = &VALUES;
+            if POS < vals.len() { vals[POS].len() } else { 0 }
+        }
+    }
     pub fn describe() -> String {
         unsafe { std::format!("values consumed: {}", POS) }
     }
@@ -116,8 +123,20 @@ pub fn any_bytes<const N: usize>() -> [u8; N] {
 }
 #[cfg(all(verif_replay, not(kani)))]
 pub fn any_bytes<const N: usize>() -> [u8; N] {
-    let v = replay_state::pop(N);
+    // Kani's playback records a symbolic byte array either as one N-byte value or as N one-byte values
     let mut r = [0u8; N];
+    if N == 0 {
+        return r;
+    }
+    if replay_state::next_len() == 1 && N > 1 {
+        let mut i = 0;
+        while i < N {
+            r[i] = replay_state::pop(1)[0];
+            i += 1;
+        }
+        return r;
+    }
+    let v = replay_state::pop(N);
     r.copy_from_slice(&v[..N]);
     r
 }
